@@ -2,8 +2,10 @@ SPECIFICATION Spec
 CONSTANTS
   W = 3
   KeyList <- SK3W
-  Vals = {1, 2}
+  Vals = {1, 2, 3}
   MaxOps = 50
   Depth = 51
+  AliasVal = 3
+  AliasKey <- AK
   HistOn = TRUE
 INVARIANT Emit
